@@ -4199,6 +4199,10 @@ Case_BaseLdurStur:
         uint32_t dst_index = o0.as<Vec>().element_index();
         uint32_t lsb_index = element_type - 1u;
 
+        // Element type must be B|H|S|D (an element index without an element type would shift by 2^32-1).
+        if (lsb_index > 3u)
+          goto InvalidInstruction;
+
         uint32_t imm5 = ((dst_index << 1) | 1u) << lsb_index;
         if (imm5 > 31)
           goto InvalidElementIndex;
